@@ -1,7 +1,7 @@
 (* Property C10: a nested scheduler behaves as one job; nesting is transparent.
    Only property theorems here. Model R, level 0. *)
 From AJ Require Import Common.Util Run.RModel Run.RFacts Run.RFacts2 Run.RInv Run.RInv4 Run.RInv5 Run.RMon Run.RProps1
-  Run.RProps2 Run.RProps3 Props.RExample Run.RWin Run.RProps4 Run.RShut1 Run.RShut2 Run.RTime Run.RFlat.
+  Run.RProps2 Run.RProps3 Props.RExample Run.RWin Run.RProps4 Run.RShut1 Run.RShut2 Run.RTime Run.RFlat Run.RInvP Run.RExc.
 
 (* (a) interface.  A nested scheduler starts (EBegin) under the very rule of an atomic job: all its
    requirements done, its parent's main loop running, a free slot in the parent's window (level
@@ -45,6 +45,27 @@ Theorem C10_same_object : forall c n w cu t, verdict_of c n w cu = VRaise t ->
   noncrit c n = false /\ ((w = WTimeout /\ t = tag_timeout n) \/ (w = WCritical /\ t = cu)).
 Proof. exact raised_tag. Qed.
 Print Assumptions C10_same_object.
+
+(* the chain: every exception recorded on a job originates in an atomic job that raised it (and
+   still holds it) or in a critical scheduler that timed out, and travels unchanged -- the same
+   tag -- up a chain of critical members of critical schedulers; likewise for the exception that
+   comes out of the top-level run() *)
+Theorem C10_exception_has_origin : forall lvl c h s x t, wf c = true -> Reach lvl c h s -> x <> 0 ->
+  st (Jb s x) = DoneExc t -> origin c s x t.
+Proof. exact exc_has_origin. Qed.
+Print Assumptions C10_exception_has_origin.
+
+Theorem C10_root_exception_has_origin : forall lvl c h s e s' t, wf c = true -> Reach lvl c h s ->
+  step lvl c s e = Some s' -> In (OEnd 0 (VRaise t)) (snd (reaction c s e)) -> origin c s' 0 t.
+Proof. exact root_exc_has_origin. Qed.
+Print Assumptions C10_root_exception_has_origin.
+
+Theorem C10_chain_bottom : forall lvl c h s x t, wf c = true -> Reach lvl c h s -> x <> 0 ->
+  st (Jb s x) = DoneExc t ->
+  exists j, (j_sched (jc c j) = false /\ t = tag_job j /\ st (Jb s j) = DoneExc t) \/
+            (j_sched (jc c j) = true /\ t = tag_timeout j).
+Proof. exact chain_bottom. Qed.
+Print Assumptions C10_chain_bottom.
 
 (* and the parent then aborts exactly as for a raising critical job: the critical path is taken
    whenever a reported job is critical and has an exception, nested or not *)
